@@ -1,1 +1,3 @@
+import GinjaxVerif.Properties.C12
+import GinjaxVerif.Properties.C18
 import GinjaxVerif.Properties.C19
